@@ -2,6 +2,7 @@ import SwcVerif.Gen.AlgoCheckers
 import SwcVerif.Refine.PyLemmas
 import SwcVerif.Refine.Dsu
 import SwcVerif.Proofs.Dsu
+import SwcVerif.Model.Sort
 /-! Refinement for C18 (pointer jumping): the definition GENERATED from `swcgeom/core/swc_utils/base.py::get_dsu`
 (`np.where` initialisation, `dict(zip(...))` index, the `while True` loop over `enumerate(dsu)` reading the array
 LIVE while it is updated in place, `break` on an unchanged pass) equals the model `Dsu.getDsu` — for every table with
@@ -353,5 +354,218 @@ theorem hasCyclic_refines (ids pids : List Int) (hl : ids.length = pids.length)
   rcases hr with ⟨rt, v', ev⟩ | ⟨rf, v', ev⟩
   · simp only [ev, rt, finish, Option.map]
   · simp only [ev, rf, finish, Option.map]
+
+/-! ### `is_bifurcate` -/
+
+/-- the `children[pid].append(idx)` loop over a `defaultdict(list)`: every entry holds the rows whose parent is its key, and the keys
+are exactly the parents met -/
+theorem bif_build : ∀ (ids pids : List Int) (v : is_bifurcate.V) (L : Int → List Int),
+    (∀ p ∈ v.children, p.2 = L p.1) → (∀ k, k ∉ v.children.map (·.1) → L k = []) →
+    ∃ v', forEach is_bifurcate.for1 (Py.zip ids pids) v = .next v' ∧
+      (∀ p ∈ v'.children, p.2 = L p.1 ++ tableKids ids pids p.1) ∧
+      (∀ k, k ∈ v'.children.map (·.1) ↔ (k ∈ v.children.map (·.1) ∨ k ∈ (List.zip ids pids).map (·.2))) ∧
+      v'.exclude_root = v.exclude_root := by
+  intro ids
+  induction ids with
+  | nil => intro pids v L h1 _; exact ⟨v, by simp [Py.zip, forEach], by simpa [tableKids] using h1, by simp, rfl⟩
+  | cons i is ih =>
+    intro pids v L h1 h2
+    cases pids with
+    | nil => exact ⟨v, by simp [Py.zip, forEach], by simpa [tableKids] using h1, by simp, rfl⟩
+    | cons p ps =>
+      -- after `setdefault` the key is present and holds `L p`
+      have hkey : p ∈ (Dict.setdefault v.children p []).map (·.1) := by
+        simp only [List.mem_map]
+        by_cases hp : p ∈ v.children.map (·.1)
+        · obtain ⟨q, hq, e⟩ := List.mem_map.1 hp
+          exact ⟨q, (Dict.mem_setdefault _ _ _ _).2 (Or.inl hq), e⟩
+        · exact ⟨(p, []), (Dict.mem_setdefault _ _ _ _).2 (Or.inr ⟨hp, rfl⟩), rfl⟩
+      have hall1 : ∀ q ∈ Dict.setdefault v.children p [], q.2 = L q.1 := by
+        intro q hq
+        rcases (Dict.mem_setdefault _ _ _ _).1 hq with h | ⟨hn, rfl⟩
+        · exact h1 q h
+        · exact (h2 p hn).symm
+      have hget : Dict.getD (Dict.setdefault v.children p []) p [] = L p := by
+        rw [Dict.getD_eq, Dict.get?_of_forall _ L hall1 p hkey]; rfl
+      obtain ⟨v', e, r1, r2, r3⟩ := ih ps
+        { v with idx := i, pid := p, children := Dict.set (Dict.setdefault v.children p []) p (L p ++ [i]) }
+        (fun k => if k = p then L p ++ [i] else L k)
+        (by
+          intro q hq
+          rcases (Dict.mem_set_of_mem _ p _ hkey q).1 hq with ⟨hq', hne⟩ | rfl
+          · simp [hne, hall1 q hq']
+          · simp)
+        (by
+          intro k hk
+          have hk' : k ∉ (Dict.setdefault v.children p []).map (·.1) := fun c => hk ((Dict.keys_set_of_mem _ p _ hkey k).2 c)
+          have hkp : k ≠ p := fun c => hk' (c ▸ hkey)
+          have hkv : k ∉ v.children.map (·.1) := by
+            intro c
+            obtain ⟨q, hq, e⟩ := List.mem_map.1 c
+            exact hk' (List.mem_map.2 ⟨q, (Dict.mem_setdefault _ _ _ _).2 (Or.inl hq), e⟩)
+          simp [hkp, h2 k hkv])
+      refine ⟨v', ?_, ?_, ?_, r3⟩
+      · simp only [Py.zip, List.zip_cons_cons, forEach, is_bifurcate.for1, hget]
+        exact e
+      · intro q hq
+        rw [r1 q hq]
+        by_cases hqp : q.1 = p
+        · simp [tableKids, hqp]
+        · have : ¬ p = q.1 := fun c => hqp c.symm
+          simp [tableKids, hqp, this]
+      · intro k
+        rw [r2 k]
+        simp only [List.zip_cons_cons, List.map_cons, List.mem_cons]
+        rw [Dict.keys_set_of_mem _ p _ hkey k]
+        constructor
+        · rintro (h | h)
+          · obtain ⟨q, hq, e⟩ := List.mem_map.1 h
+            rcases (Dict.mem_setdefault _ _ _ _).1 hq with h' | ⟨_, rfl⟩
+            · exact Or.inl (List.mem_map.2 ⟨q, h', e⟩)
+            · exact Or.inr (Or.inl e.symm)
+          · exact Or.inr (Or.inr h)
+        · rintro (h | h | h)
+          · obtain ⟨q, hq, e⟩ := List.mem_map.1 h
+            exact Or.inl (List.mem_map.2 ⟨q, (Dict.mem_setdefault _ _ _ _).2 (Or.inl hq), e⟩)
+          · exact Or.inl (h ▸ hkey)
+          · exact Or.inr h
+
+/-- the `for k, v in children.items()` loop with its early `return False` -/
+theorem bif_scan (root : List Int) (excl : Bool) : ∀ (items : List (Int × List Int)) (v : is_bifurcate.V),
+    v.root = root → v.exclude_root = excl →
+    (if items.all (fun kv => decide (kv.1 = -1) || (excl && root.contains kv.1) || decide (kv.2.length ≤ 2))
+     then ∃ v', forEach is_bifurcate.for2 items v = .next v' else ∃ v', forEach is_bifurcate.for2 items v = .ret v' false) := by
+  intro items
+  induction items with
+  | nil => intro v _ _; exact ⟨v, rfl⟩
+  | cons kv items ih =>
+    intro v hr he
+    simp only [List.all_cons]
+    by_cases hskip : (decide (kv.1 = -1) || (excl && root.contains kv.1)) = true
+    · have hb : is_bifurcate.for2 kv v = .cont { v with k := kv.1, v := kv.2 } := by
+        simp only [is_bifurcate.for2, seq, hr, he, hskip, if_true]
+      have := ih { v with k := kv.1, v := kv.2 } hr he
+      simp only [forEach, hb]
+      have h1 : (decide (kv.1 = -1) || (excl && root.contains kv.1) || decide (kv.2.length ≤ 2)) = true := by
+        rw [hskip, Bool.true_or]
+      rw [h1, Bool.true_and]
+      exact this
+    · have hskip' : (decide (kv.1 = -1) || (excl && root.contains kv.1)) = false := by simpa using hskip
+      by_cases hlen : kv.2.length ≤ 2
+      · have hb : is_bifurcate.for2 kv v = .next { v with k := kv.1, v := kv.2 } := by
+          have : ¬ ((kv.2.length : Int) > 2) := by omega
+          simp only [is_bifurcate.for2, seq, hr, he, hskip', Bool.false_eq_true, if_false, skip, len_eq, this, decide_false]
+        have := ih { v with k := kv.1, v := kv.2 } hr he
+        simp only [forEach, hb]
+        have h1 : (decide (kv.1 = -1) || (excl && root.contains kv.1) || decide (kv.2.length ≤ 2)) = true := by
+          rw [hskip', Bool.false_or]; exact decide_eq_true hlen
+        rw [h1, Bool.true_and]
+        exact this
+      · have hb : is_bifurcate.for2 kv v = .ret { v with k := kv.1, v := kv.2 } false := by
+          have : ((kv.2.length : Int) > 2) := by omega
+          simp only [is_bifurcate.for2, seq, hr, he, hskip', Bool.false_eq_true, if_false, skip, len_eq, this, decide_true, if_true]
+        have h1 : (decide (kv.1 = -1) || (excl && root.contains kv.1) || decide (kv.2.length ≤ 2)) = false := by
+          rw [hskip', Bool.false_or]; exact decide_eq_false hlen
+        simp only [forEach, hb, h1, Bool.false_and, Bool.false_eq_true, if_false]
+        exact ⟨_, rfl⟩
+
+/-- **`is_bifurcate` as translated equals the model** on every table with equally long columns: `True` exactly when no parent other
+than the (optionally exempt) roots has more than two children -/
+theorem isBifurcate_refines (ids pids : List Int) (hl : ids.length = pids.length) (excl : Bool) :
+    is_bifurcate (ids, pids) excl = some (isBifurcate ids pids excl) := by
+  obtain ⟨v1, e1, a1, k1, x1⟩ := bif_build ids pids
+    { (default : is_bifurcate.V) with topology := (ids, pids), exclude_root := excl, children := [] } (fun _ => [])
+    (by intro p hp; simp at hp) (by intro k _; rfl)
+  simp only [List.nil_append] at a1
+  have hzip : (List.zip ids pids).map (·.2) = pids := by
+    rw [← List.unzip_snd, List.unzip_zip_right (by omega)]
+  simp only [List.map_nil, List.not_mem_nil, false_or, hzip] at k1
+  -- after `root = children[-1]`
+  let d2 := Dict.setdefault v1.children (-1) []
+  have hall2 : ∀ q ∈ d2, q.2 = tableKids ids pids q.1 := by
+    intro q hq
+    rcases (Dict.mem_setdefault _ _ _ _).1 hq with h | ⟨hn, rfl⟩
+    · exact a1 q h
+    · -- -1 is not a parent of any row
+      have : (-1 : Int) ∉ pids := fun c => hn ((k1 (-1)).2 c)
+      have hnil : ∀ (is ps : List Int), (-1 : Int) ∉ ps → tableKids is ps (-1) = [] := by
+        intro is
+        induction is with
+        | nil => intro ps _; simp [tableKids]
+        | cons i is ih =>
+          intro ps hps
+          cases ps with
+          | nil => simp [tableKids]
+          | cons p ps =>
+            simp only [List.mem_cons, not_or] at hps
+            have : ¬ p = -1 := fun c => hps.1 c.symm
+            simp [tableKids, this, ih ps hps.2]
+      exact (hnil ids pids this).symm
+  have hkey2 : (-1 : Int) ∈ d2.map (·.1) := by
+    by_cases h : (-1 : Int) ∈ v1.children.map (·.1)
+    · obtain ⟨q, hq, e⟩ := List.mem_map.1 h
+      exact List.mem_map.2 ⟨q, (Dict.mem_setdefault _ _ _ _).2 (Or.inl hq), e⟩
+    · exact List.mem_map.2 ⟨(-1, []), (Dict.mem_setdefault _ _ _ _).2 (Or.inr ⟨h, rfl⟩), rfl⟩
+  have hroot : Dict.getD d2 (-1) [] = tableKids ids pids (-1) := by
+    rw [Dict.getD_eq, Dict.get?_of_forall d2 _ hall2 (-1) hkey2]; rfl
+  have hscan := bif_scan (tableKids ids pids (-1)) excl d2
+    { v1 with children := d2, root := tableKids ids pids (-1) } rfl x1
+  -- the two `all`s agree
+  have hiff : (d2.all (fun kv => decide (kv.1 = -1) || (excl && (tableKids ids pids (-1)).contains kv.1) || decide (kv.2.length ≤ 2))) =
+      isBifurcate ids pids excl := by
+    rw [Bool.eq_iff_iff]
+    simp only [isBifurcate, List.all_eq_true]
+    constructor
+    · intro h k hk
+      have hkd : k ∈ d2.map (·.1) := by
+        obtain ⟨q, hq, e⟩ := List.mem_map.1 ((k1 k).2 hk)
+        exact List.mem_map.2 ⟨q, (Dict.mem_setdefault _ _ _ _).2 (Or.inl hq), e⟩
+      obtain ⟨q, hq, e⟩ := List.mem_map.1 hkd
+      have := h q hq
+      rw [hall2 q hq, e] at this
+      simpa using this
+    · intro h q hq
+      rw [hall2 q hq]
+      by_cases hq1 : q.1 = -1
+      · simp [hq1]
+      · have hqk : q.1 ∈ pids := by
+          rcases (Dict.mem_setdefault _ _ _ _).1 hq with h' | ⟨_, rfl⟩
+          · exact (k1 q.1).1 (List.mem_map.2 ⟨q, h', rfl⟩)
+          · exact absurd rfl hq1
+        have := h q.1 hqk
+        simpa using this
+  simp only [is_bifurcate, is_bifurcate.body, seq]
+  rw [e1]
+  simp only [d2] at hroot
+  simp only [hroot]
+  rw [hiff] at hscan
+  by_cases hb : isBifurcate ids pids excl = true
+  · rw [if_pos hb] at hscan
+    obtain ⟨v', ev⟩ := hscan
+    simp only [d2] at ev
+    rw [ev]
+    simp [finish, hb]
+  · have hb' : isBifurcate ids pids excl = false := by simpa using hb
+    rw [if_neg hb] at hscan
+    obtain ⟨v', ev⟩ := hscan
+    simp only [d2] at ev
+    rw [ev]
+    simp [finish, hb']
+
+/-- `is_sorted` as translated is the model's `np.all(pids < ids)` -/
+theorem isSorted_refines (ids pids : List Int) : is_sorted (ids, pids) = some (SortM.isSorted ids pids) := by
+  have : ∀ (a b : List Int), Py.all (Py.ltMask b a) = (List.zipWith (fun i p => decide (p < i)) a b).all id := by
+    intro a
+    induction a with
+    | nil => intro b; cases b <;> simp [Py.all, Py.ltMask]
+    | cons x xs ih =>
+      intro b
+      cases b with
+      | nil => simp [Py.all, Py.ltMask]
+      | cons y ys =>
+        have := ih ys
+        simp only [Py.all, Py.ltMask] at this ⊢
+        simp [this]
+  simp [is_sorted, is_sorted.body, seq, finish, SortM.isSorted, this]
 
 end RefineCheckers
